@@ -114,40 +114,90 @@ example : (demoMq 27).s.fault = none ∧ (demoMq 27).s.answered = [0, 1, 2, 4, 3
     (demoMq 11).s.portIn = [0] ∧ (demoMq 25).s.portIn = [4, 3] := by
   decide +kernel
 
-/-- Liveness at full strength: from every reachable state, serving and ticking long enough empties
-    every queue. FALSE for the code as it is: a copy of 0 bytes that needs no flush. -/
+/-- Liveness at full strength: from every reachable state — whatever was enqueued, zero-length
+    copies included — serving and ticking long enough empties every queue. Before the repair this was
+    false (`mq_all_complete_before_fix_refuted`); for the repaired driver it holds
+    (`mq_all_complete_full_holds`). -/
 def mq_all_complete_full : Prop :=
   ∀ (g a b n : Nat) (warm : Bool) (ops : List MqOp), ∃ k, ((reachMq g a b n warm ops).rounds k).allDone
 
-/-- **Refuted:** a zero-length copy without flush creates no request but marks its queue running;
-    no answer can complete it (reproduced on the real driver: oracle
-    `C11.copy.zero-length-never-completes`). -/
-theorem mq_all_complete_full_refuted : ¬ mq_all_complete_full := by
-  intro h
-  obtain ⟨k, hk⟩ := h 1 0 0 1 false [.enq 0 ⟨.h2d, 0, false⟩]
-  exact mq_zero_stuck k hk
-
-/-- the witness: after any number of rounds (here 2 and 50) the only queue still holds the zero-length
-    copy, marked running, with no request open and nothing in flight -/
-example :
-    ((reachMq 1 0 0 1 false [.enq 0 ⟨.h2d, 0, false⟩]).rounds 2).s.queues =
-      [{ cmds := [⟨.h2d, 0, false⟩], running := true, reqs := [], done := 0 }] ∧
-    ((reachMq 1 0 0 1 false [.enq 0 ⟨.h2d, 0, false⟩]).rounds 50).s.queues =
-      [{ cmds := [⟨.h2d, 0, false⟩], running := true, reqs := [], done := 0 }] ∧
-    ((reachMq 1 0 0 1 false [.enq 0 ⟨.h2d, 0, false⟩]).rounds 50).inFlight = [] ∧
-    mqWant 1 ⟨.h2d, 0, false⟩ = 0 := by
-  decide +kernel
-
-/-- **All copies complete.** If every enqueued command needs at least one request (a non-empty
-    copy, or an empty one with a flush), then from every reachable state — commands enqueued on any
-    queues in the same or neighbouring ticks, H2D and D2H mixed, anything in flight anywhere —
-    `potential` rounds of "GPU side answers everything, driver ticks" empty every queue. -/
-theorem mq_all_complete (g a b n : Nat) (warm : Bool) (ops : List MqOp)
-    (hpos : ∀ x ∈ (reachMq g a b n warm ops).enq, 1 ≤ mqWant g x.2) :
+/-- **All copies complete.** From every reachable state — commands enqueued on any queues in the
+    same or neighbouring ticks, H2D and D2H mixed, copies of 0 bytes with or without a flush, anything
+    in flight anywhere — `potential` rounds of "GPU side answers everything, driver ticks" empty every
+    queue. No assumption on the commands: a command for which no request is created completes in the
+    tick that starts it (`completeCommandIfDone` at the end of `processMemCopyH2D/D2HCommand`), so a
+    running queue always has a request open. -/
+theorem mq_all_complete (g a b n : Nat) (warm : Bool) (ops : List MqOp) :
     let e := reachMq g a b n warm ops
     (e.rounds e.potential).allDone := by
   intro e
-  exact (reachMq_inv g a b n warm ops).rounds_allDone e.potential hpos (Nat.le_refl _)
+  exact (reachMq_inv g a b n warm ops).rounds_allDone e.potential (Nat.le_refl _)
+
+/-- **Liveness at full strength holds** for the repaired driver: `potential` rounds suffice. -/
+theorem mq_all_complete_full_holds : mq_all_complete_full :=
+  fun g a b n warm ops => ⟨(reachMq g a b n warm ops).potential, mq_all_complete g a b n warm ops⟩
+
+/-- the same statement about the driver BEFORE the repair (`reachMqOld` / `roundsOld` run
+    `Mq.tickOld`, where a command without any request leaves its queue running) -/
+def mq_all_complete_before_fix : Prop :=
+  ∀ (g a b n : Nat) (warm : Bool) (ops : List MqOp), ∃ k, ((reachMqOld g a b n warm ops).roundsOld k).allDone
+
+/-- **Before the repair liveness failed:** a zero-length copy without flush created no request but
+    marked its queue running; no answer could complete it (reproduced on the unrepaired driver: oracle
+    `C11.copy.zero-length-never-completes`). -/
+theorem mq_all_complete_before_fix_refuted : ¬ mq_all_complete_before_fix := by
+  intro h
+  obtain ⟨k, hk⟩ := h 1 0 0 1 false [.enq 0 ⟨.h2d, 0, false⟩]
+  exact mq_zero_stuck_old k hk
+
+/-- before the repair: after any number of rounds (here 2 and 50) the only queue still holds the
+    zero-length copy, marked running, with no request open and nothing in flight -/
+example :
+    ((reachMqOld 1 0 0 1 false [.enq 0 ⟨.h2d, 0, false⟩]).roundsOld 2).s.queues =
+      [{ cmds := [⟨.h2d, 0, false⟩], running := true, reqs := [], done := 0 }] ∧
+    ((reachMqOld 1 0 0 1 false [.enq 0 ⟨.h2d, 0, false⟩]).roundsOld 50).s.queues =
+      [{ cmds := [⟨.h2d, 0, false⟩], running := true, reqs := [], done := 0 }] ∧
+    ((reachMqOld 1 0 0 1 false [.enq 0 ⟨.h2d, 0, false⟩]).roundsOld 50).inFlight = [] ∧
+    ((reachMqOld 1 0 0 1 false [.enq 0 ⟨.h2d, 0, false⟩]).roundsOld 50).s.completed = [] ∧
+    mqWant 1 ⟨.h2d, 0, false⟩ = 0 := by
+  decide +kernel
+
+/-- the repaired driver: the first tick starts the zero-length copy and completes it at once — the
+    queue is empty and not running, the command is recorded as completed, no request was created -/
+example :
+    ((reachMq 1 0 0 1 false [.enq 0 ⟨.h2d, 0, false⟩]).rounds 1).s.queues =
+      [{ cmds := [], running := false, reqs := [], done := 1 }] ∧
+    ((reachMq 1 0 0 1 false [.enq 0 ⟨.h2d, 0, false⟩]).rounds 1).s.completed = [(0, 0)] ∧
+    ((reachMq 1 0 0 1 false [.enq 0 ⟨.h2d, 0, false⟩]).rounds 1).s.created = [] ∧
+    ((reachMq 1 0 0 1 false [.enq 0 ⟨.h2d, 0, false⟩]).rounds 1).allDone ∧
+    (reachMq 1 0 0 1 false [.enq 0 ⟨.h2d, 0, false⟩]).potential = 3 := by
+  decide +kernel
+
+/-- a zero-length copy BETWEEN two one-piece copies on the same queue (H2D latency 2, D2H latency 3):
+    the three commands complete in queue order; the zero-length one completes in the very tick in
+    which the answer to the first copy is processed (round 6: `completed` grows by two entries), the
+    third copy is started one tick later and gets request id 1 -/
+example :
+    let e := reachMq 1 2 3 1 false [.enq 0 ⟨.h2d, 1, false⟩, .enq 0 ⟨.h2d, 0, false⟩, .enq 0 ⟨.d2h, 1, false⟩]
+    e.potential = 24 ∧
+    (e.rounds 5).s.completed = [] ∧ (e.rounds 6).s.completed = [(0, 0), (0, 1)] ∧
+    (e.rounds 6).s.queues = [{ cmds := [⟨.d2h, 1, false⟩], running := false, reqs := [], done := 2 }] ∧
+    (e.rounds 7).s.queues = [{ cmds := [⟨.d2h, 1, false⟩], running := true, reqs := [1], done := 2 }] ∧
+    (e.rounds 12).s.completed = [(0, 0), (0, 1)] ∧
+    (e.rounds 13).s.completed = [(0, 0), (0, 1), (0, 2)] ∧ (e.rounds 13).allDone ∧
+    (e.rounds 24).s.completed = [(0, 0), (0, 1), (0, 2)] ∧ (e.rounds 24).s.answered = [0, 1] := by
+  decide +kernel
+
+/-- a zero-length copy WITH flush creates one flush request (per GPU): the command stays running
+    until that request is answered and completes only then -/
+example :
+    let e := reachMq 1 2 3 1 false [.enq 0 ⟨.d2h, 0, true⟩]
+    mqWant 1 ⟨.d2h, 0, true⟩ = 1 ∧
+    (e.rounds 1).s.queues = [{ cmds := [⟨.d2h, 0, true⟩], running := true, reqs := [0], done := 0 }] ∧
+    (e.rounds 2).s.completed = [] ∧ (e.rounds 2).s.answered = [] ∧ (e.rounds 2).inFlight = [0] ∧
+    (e.rounds 3).s.completed = [(0, 0)] ∧ (e.rounds 3).s.answered = [0] ∧ (e.rounds 3).allDone ∧
+    ((e.rounds 3).reqsOf 0 0).map (fun r => (r.id, r.kind, r.idx)) = [(0, .flush, 0)] := by
+  decide +kernel
 
 /-- from the end of the demo (request 5 of queue 1's second command in the delay line, timer at 2)
     the potential is 7 and falls 7, 6, 5, 3, 2, 0 round by round; the queues are not yet empty after
